@@ -8,7 +8,8 @@
    The theorems say that none of these is reachable: for ALL capacities (0 and 1 included),
    terminators, histories and fault scripts; for ALL strings (empty, long, non-ASCII,
    delimiter-laden), numbers, Durations and packed lists; and that invalid values are
-   reported as InvalidInput while everything else is sent.
+   reported as InvalidInput (a user-defined value type whose conversion fails: as the error it
+   returned) while everything else is sent.
 
    What is proved is the absence of arithmetic panics and of unwraps on None in the modelled
    cores.  lock().unwrap() (needs a panic under the lock, which these theorems exclude for
@@ -58,33 +59,50 @@ Proof.
     destruct (under s (bbuf s) (Lines (bids s)) op) as [[|er|] s']; try discriminate; apply IH.
 Qed.
 
-(* client.rs / builder.rs: every well-typed call is answered — a line or InvalidInput, never
+(* client.rs / builder.rs: every well-typed call is answered — a line or an error (InvalidInput,
+   or the error a user-defined value type returned from its own conversion), never
    stuck — for arbitrary prefixes, keys, tags, container ids and values *)
 Theorem c20_call_total : forall cfg c,
   to_value (k_kind c) (k_arg c) <> None ->
-  client_line cfg c = Some (inl InvalidInput) \/ exists l, client_line cfg c = Some (inr l).
+  (exists e, client_line cfg c = Some (inl e) /\ (e = EInvalid \/ k_arg c = AUserErr e)) \/
+  exists l, client_line cfg c = Some (inr l).
 Proof.
   intros cfg c H. destruct (c01_total cfg c) as (_ & E & Z & L).
   destruct (to_value (k_kind c) (k_arg c)) as [[e|v]|] eqn:T; [| |congruence].
-  - left. exact (E e eq_refl).
-  - destruct (mv_count v) eqn:M; [left; exact (Z v eq_refl M)|right; apply (L v eq_refl); lia].
+  - left. exists e. exact (E e eq_refl).
+  - destruct (mv_count v) eqn:M; [left; exists EInvalid; split; [exact (Z v eq_refl M)|left; reflexivity]
+                                 |right; apply (L v eq_refl); lia].
 Qed.
 
 (* invalid values are reported as errors and everything else is sent: a call is rejected
-   exactly when a Duration count does not fit in 64 bits or a packed list is empty *)
+   exactly when its conversion fails -- a Duration count does not fit in 64 bits, or a
+   user-defined value type returned an error -- or a packed list is empty; the error is
+   InvalidInput except for the error of a user-defined conversion, which is reported as it is *)
 Theorem c20_invalid_iff : forall cfg c,
   to_value (k_kind c) (k_arg c) <> None ->
-  (client_line cfg c = Some (inl InvalidInput) <->
+  (client_line cfg c = Some (inl EInvalid) <->
+   to_value (k_kind c) (k_arg c) = Some (inl EInvalid) \/
+   (exists v, to_value (k_kind c) (k_arg c) = Some (inr v) /\ mv_count v = 0)) /\
+  ((exists e, client_line cfg c = Some (inl e)) <->
    (exists e, to_value (k_kind c) (k_arg c) = Some (inl e)) \/
-   (exists v, to_value (k_kind c) (k_arg c) = Some (inr v) /\ mv_count v = 0)).
+   (exists v, to_value (k_kind c) (k_arg c) = Some (inr v) /\ mv_count v = 0)) /\
+  (forall e, to_value (k_kind c) (k_arg c) = Some (inl e) ->
+     client_line cfg c = Some (inl e) /\ (e = EInvalid \/ k_arg c = AUserErr e)).
 Proof.
   intros cfg c H. destruct (c01_total cfg c) as (_ & E & Z & L).
   destruct (to_value (k_kind c) (k_arg c)) as [[e|v]|] eqn:T; [| |congruence].
-  - split; [intros _; left; eauto|intros _; exact (E e eq_refl)].
-  - destruct (mv_count v) eqn:M.
+  - destruct (E e eq_refl) as [Ee Ek]. split; [|split].
+    + split; [intros C; left; congruence|intros [C|[v [C _]]]; [congruence|discriminate]].
+    + split; [intros _; left; eauto|intros _; eauto].
+    + intros e' He'. inversion He'; subst. split; assumption.
+  - split; [|split; [|intros e He; discriminate]]; destruct (mv_count v) eqn:M.
     + split; [intros _; right; eauto|intros _; exact (Z v eq_refl M)].
     + split.
       * intros C. destruct (L v eq_refl) as [l Hl]; [lia|]. congruence.
+      * intros [He|[v' [Hv Hc]]]; [discriminate|]. inversion Hv; subst. lia.
+    + split; [intros _; right; eauto|intros _; exists EInvalid; exact (Z v eq_refl M)].
+    + split.
+      * intros [e C]. destruct (L v eq_refl) as [l Hl]; [lia|]. congruence.
       * intros [[e He]|[v' [Hv Hc]]]; [discriminate|]. inversion Hv; subst. lia.
 Qed.
 
@@ -143,7 +161,7 @@ Example c20_witness :
    size_hint {| f_prefix := [1]; f_key := []; f_val := PackedUnsigned [1; 2; 3]; f_kind := Timer;
                 f_tags := [(Some [1], [2; 3]); (None, [])]; f_timestamp := Some 5; f_rate := Some [49];
                 f_container := Some [7; 7] |})%N
-  = ([OErr 3%N; OOk 1; OOk 0; OOk 0], [OOk 0; OOk 1; OOk 2; OOk 0], Some (inl InvalidInput), Some 77%N).
+  = ([OErr 3%N; OOk 1; OOk 0; OOk 0], [OOk 0; OOk 1; OOk 2; OOk 0], Some (inl EInvalid), Some 77%N).
 Proof. vm_compute. reflexivity. Qed.
 
 (* ==== added after the audit of 2026-10-02 (selftest/audit/REPORT-2026-10-02.md) ==== *)
